@@ -102,6 +102,18 @@ func gen(tier string) []proto.Item {
 				items = append(items, proto.Item{Scn: s, Class: fmt.Sprintf("%s/other-connections-synack-first/dest-%d", v, d)})
 			}
 		}
+		if proto.Info(v).Kind == "sack" {
+			// the target negotiated selective acknowledgement but acknowledges the probes without blocks: the run ends with an
+			// error (that is C20's subject); it has seen the destination's answer, so the remaining TTLs are not probed
+			for _, d := range []int{2, 3} {
+				s := proto.Scn{Variant: v, First: 1, Last: 12, Dest: d, IPIDBase: 1000, EchoBase: 50, TimeoutMs: 300, DelayMs: 10}
+				s.Hops = map[int]proto.HopSpec{}
+				for t := d; t <= 12; t++ {
+					s.Hops[t] = proto.HopSpec{AtTarget: true, Form: "plainack"}
+				}
+				items = append(items, proto.Item{Scn: s, Class: fmt.Sprintf("%s/destination-acknowledges-without-blocks/dest-%d", v, d), Note: map[string]string{"error_expected": "1"}})
+			}
+		}
 		if proto.Info(v).Parallel {
 			// no pacing at all (the library accepts a zero delay): the sender still stops once the destination's reply has been
 			// processed, on every schedule with one preemption
@@ -159,7 +171,7 @@ func check(it *proto.Item, r *proto.Result) []proto.Issue {
 		if i > 0 {
 			sc = &it.Scn.Then[i-1]
 		}
-		if r.Obs[i].Err != nil {
+		if r.Obs[i].Err != nil && it.Note["error_expected"] == "" {
 			out = append(out, proto.Issue{Key: "run-error", Detail: r.Obs[i].Err.Error()})
 			continue
 		}
